@@ -35,6 +35,7 @@ RULE = ("ballot cases: EXHAUSTIVE over every partial ranking (every length 0..n,
         "assertions evaluated through both readers; assertions returned by compute_raire_assertions re-applied. "
         "non-trivial = non-empty ballot / file with at least one ballot; distinct = distinct canonical input")
 EXHAUSTIVE = {"quick": False, "thorough": False}
+RULE += "; option stream (n/200 more files, own generator, OPTIONS_AUDIT.md): contest lines with the optional trailing fields order,<permutation> and informal,<count>"
 
 CID = "c1"
 NAMES = ["A", "B", "C", "D", "E"]
